@@ -329,7 +329,11 @@ pub fn op_resolve<B: Be>(mut doc: B, p: &Pointer, mutable: bool) -> String {
     let mut law_walk = Law::new();
     match (&primary, &reference) {
         (Ok((addr, _)), Ok(raddr)) => law_walk.ck(addr == raddr, "reached_a_different_node"),
-        (Err(_), Err(rf)) => law_walk.ck(info.as_ref().unwrap().kind == rf.kind, "error_kind_differs"),
+        (Err(_), Err(rf)) => {
+            law_walk.ck(info.as_ref().unwrap().kind == rf.kind, "error_kind_differs");
+            // "the error names the first step that fails"
+            law_walk.ck(info.as_ref().unwrap().pos == rf.pos, "error_names_a_different_step");
+        }
         (Ok(_), Err(_)) => law_walk.fail("ok_where_reference_walk_fails"),
         (Err(_), Ok(_)) => law_walk.fail("error_where_reference_walk_succeeds"),
     }
